@@ -28,11 +28,13 @@ type Exec struct {
 	notedSeen   map[string]bool
 	frames      []frameRec
 	notedAll    []notedAddr
+	divCache    map[string][2]Term
+	mulSeen     map[string]bool
 }
 
 func (e *Engine) NewExec(unit string) *Exec {
 	return &Exec{E: e, C: NewCtx(unit), baseSyms: map[string]Term{}, mapValSorts: map[string]Sort{},
-		oblCount: map[string]int{}, safety: true, noted: map[string][]notedAddr{}, notedSeen: map[string]bool{}}
+		oblCount: map[string]int{}, safety: true, noted: map[string][]notedAddr{}, notedSeen: map[string]bool{}, divCache: map[string][2]Term{}, mulSeen: map[string]bool{}}
 }
 
 func (x *Exec) initialState() *State {
@@ -846,11 +848,17 @@ func (x *Exec) binop(fr *frame, s *State, op token.Token, a, b Value, rt types.T
 		case token.SUB:
 			return one(BVOp("bvsub", x0, y0))
 		case token.MUL:
-			return one(BVOp("bvmul", x0, y0))
+			return one(x.mulTerm(x0, y0))
 		case token.QUO, token.REM:
 			if x.safety {
 				x.C.Oblige(x.oblName(fr.fn, "divzero"), "divzero", x.pos(pos), "divisor is not zero", s.Reach,
 					Not(Eq(y0, BVLitI(y0.Sort.Width(), 0))))
+			}
+			if q, r, ok := x.divByConst(x0, y0, sg); ok {
+				if op == token.QUO {
+					return one(q)
+				}
+				return one(r)
 			}
 			o := map[bool]map[token.Token]string{true: {token.QUO: "bvsdiv", token.REM: "bvsrem"}, false: {token.QUO: "bvudiv", token.REM: "bvurem"}}[sg][op]
 			return one(BVOp(o, x0, y0))
@@ -1391,4 +1399,85 @@ func (x *Exec) canonicalIface(s *State, v Value) {
 		}
 		x.C.Assume(Implies(Eq(v.L[0], IntLit(id)), c))
 	}
+}
+
+// divByConst encodes division and remainder by a positive constant through their
+// defining equations (x = q*c + r with the sign/size conditions of Go's
+// truncated division) instead of a bit-level divider, which the solvers cannot
+// reason about at 64 bits. The encoding is exact: the true quotient and
+// remainder satisfy the constraints and no other pair does (DESIGN section 12).
+func (x *Exec) divByConst(a, c Term, signed bool) (q, r Term, ok bool) {
+	if x.C.noDefine > 0 || !strings.HasPrefix(c.S, "#") {
+		return Term{}, Term{}, false
+	}
+	w := c.Sort.Width()
+	cv := new(big.Int)
+	if strings.HasPrefix(c.S, "#x") {
+		cv.SetString(c.S[2:], 16)
+	} else {
+		cv.SetString(c.S[2:], 2)
+	}
+	max := new(big.Int).Lsh(big.NewInt(1), uint(w))
+	if signed {
+		max.Rsh(max, 1)
+	}
+	if cv.Sign() <= 0 || cv.Cmp(max) >= 0 {
+		return Term{}, Term{}, false
+	}
+	if cv.Cmp(big.NewInt(1)) == 0 {
+		return a, BVLitI(w, 0), true
+	}
+	a = x.C.Canon("dividend", a)
+	key := fmt.Sprintf("%v|%s|%s", signed, a.S, c.S)
+	if qr, ok := x.divCache[key]; ok {
+		return qr[0], qr[1], true
+	}
+	pre := "u"
+	if signed {
+		pre = "s"
+	}
+	x.C.DeclareFun(fmt.Sprintf("%sdivc%d", pre, w), []Sort{a.Sort, a.Sort}, a.Sort)
+	x.C.DeclareFun(fmt.Sprintf("%sremc%d", pre, w), []Sort{a.Sort, a.Sort}, a.Sort)
+	q = app(a.Sort, fmt.Sprintf("%sdivc%d", pre, w), a, c)
+	r = app(a.Sort, fmt.Sprintf("%sremc%d", pre, w), a, c)
+	zero := BVLitI(w, 0)
+	if signed {
+		maxS := new(big.Int).Sub(max, big.NewInt(1)) // 2^(w-1)-1
+		qmax := new(big.Int).Quo(maxS, cv)
+		qmin := new(big.Int).Neg(new(big.Int).Quo(max, cv))
+		x.C.Assume(And(Eq(a, BVOp("bvadd", x.mulTerm(q, c), r)),
+			BVCmp("bvsle", BVLit(w, qmin), q), BVCmp("bvsle", q, BVLit(w, qmax)),
+			Ite(BVCmp("bvsge", a, zero), And(BVCmp("bvsge", r, zero), BVCmp("bvslt", r, c)),
+				And(BVCmp("bvsle", r, zero), BVCmp("bvsgt", r, app(c.Sort, "bvneg", c))))))
+	} else {
+		maxU := new(big.Int).Sub(max, big.NewInt(1))
+		qmax := new(big.Int).Quo(maxU, cv)
+		qc := x.mulTerm(q, c)
+		x.C.Assume(And(BVCmp("bvule", q, BVLit(w, qmax)), BVCmp("bvule", qc, a), Eq(r, BVOp("bvsub", a, qc)), BVCmp("bvult", r, c)))
+	}
+	x.divCache[key] = [2]Term{q, r}
+	return q, r, true
+}
+
+// mulTerm: multiplication by a constant goes through an uninterpreted wrapper
+// that is pinned to bvmul, so that the solvers get congruence (mul(a,c) = mul(b,c)
+// from a = b) without having to reason about the multiplier circuit.
+func (x *Exec) mulTerm(a, b Term) Term {
+	if strings.HasPrefix(a.S, "#") && !strings.HasPrefix(b.S, "#") {
+		a, b = b, a
+	}
+	w := a.Sort.Width()
+	if x.C.noDefine > 0 || !strings.HasPrefix(b.S, "#") || strings.HasPrefix(a.S, "#") || w < 32 {
+		return BVOp("bvmul", a, b)
+	}
+	name := fmt.Sprintf("mulc%d", w)
+	x.C.DeclareFun(name, []Sort{a.Sort, a.Sort}, a.Sort)
+	a = x.C.Canon("factor", a)
+	t := app(a.Sort, name, a, b)
+	key := "mul|" + t.S
+	if !x.mulSeen[key] {
+		x.mulSeen[key] = true
+		x.C.Assume(Eq(t, BVOp("bvmul", a, b)))
+	}
+	return t
 }
